@@ -15,6 +15,7 @@ import FerretVerif.Drv.Mut
 import FerretVerif.Drv.Lexer
 import FerretVerif.Drv.Diag
 import FerretVerif.Drv.Visibility
+import FerretVerif.Drv.Borrow
 
 open FerretVerif
 
@@ -74,6 +75,7 @@ def main (args : List String) : IO UInt32 := do
   | ["diag-bag"] => eachLine cmdDiagBag; return 0
   | ["diag-sort"] => eachLine cmdDiagSort; return 0
   | ["is-exported"] => eachLine cmdIsExported; return 0
+  | ["borrow"] => eachLine cmdBorrow; return 0
   | ["sched"] => eachLine cmdSched; return 0
   | ["toml-fmt"] => eachLine cmdTomlFmt; return 0
   | ["toml-parseval"] => eachLine cmdTomlParseVal; return 0
